@@ -328,6 +328,7 @@ class FunctionVC(Executor):
         if normal_conds and not self.feasible(s):
             return
         # frame: havoc what the callee may modify
+        clock0 = smt._clock[0]
         post = St(s.pc, dict(bound), s.heap, [], s.fresh)
         for m in contract.get("modifies", []):
             mv = self.with_old(bound, pre_heap, lambda: self.ev1(parse_clause(m), cs))
@@ -372,6 +373,11 @@ class FunctionVC(Executor):
                 result = TupVal([self.fresh_typed(t, post) for t in rty[1]])
             else:
                 result = self.fresh_typed(rty, post)
+        # the havoced contents describe the heap AFTER the call: they may hold the object the callee returns, so the
+        # array constants created above are (re)stamped after the result's allocation (allocation-order rule of the rewriter)
+        for nm, ev in list(smt.EVENT.items()):
+            if ev > clock0 and (nm.startswith("hv_") or nm.startswith("H_")):
+                smt.tick(nm)
         post.env["result"] = result
         self.env0, self.heap0 = dict(bound), pre_heap
         try:
